@@ -171,7 +171,7 @@ def parse_line(line):
 
 def in_domain(line):
     """inside the property's quantifier: callbacks that report success (none of the failing callbacks ERR_CBS, neither in
-    the history nor in a script), a current ring position below 25.  What the scheduler does when a callback fails (the
+    the history nor in a script), frame offsets 0..24, a current ring position below 25.  What the scheduler does when a callback fails (the
     rc < 0 path) is modelled and compared, but the property does not speak about it: a difference there is listed in the
     evidence and is not a broken tie."""
     try:
@@ -193,9 +193,19 @@ def in_domain(line):
             for c in op[2]:
                 for x in cbs(c):
                     yield x
+    def offs(op):
+        if op[0] in ("sched", "set"):
+            yield op[1]
+        elif op[0] == "def":
+            for c in op[2]:
+                for x in offs(c):
+                    yield x
     for op in ops:
         for c in cbs(op):
             if c in ERR_CBS:
+                return False
+        for o in offs(op):
+            if not 0 <= o < NF:          # "all frame offsets 0..24": what an offset beyond the scheduler depth does is not the property's business
                 return False
     return True
 
